@@ -17,7 +17,7 @@ ASSUMPTIONS = [
     'nothing else delays the timer: no API latency, zero-duration change handlers',
     'any delivered event may reset idling when no diff-base is stored (docs/timers.rst note); only essential changes must',
 ]
-BUDGET = {'quick': 50, 'thorough': 1500}
+BUDGET = {'quick': 120, 'thorough': 1500}
 EPS = 1e-6
 
 
@@ -40,6 +40,15 @@ def scenarios(draw):
                                                  'v': st.integers(0, 50), 'dt': dts}), max_size=6))
     for i, e in enumerate(edits):
         e['v'] = i + 1
+    # a change that reaches the operator only through a re-listing: the stream breaks, the object changes, the history is compacted
+    # (the reconnection gets 410 Gone and lists anew)
+    out = []
+    for e in edits:
+        if e['a'] == 'edit_spec' and draw(st.integers(0, 2 if idle else 5)) == 0:
+            out.append({'a': 'compact', 'edit': {'obj': 0, 'v': e['v']}, 'dt': e['dt']})
+        else:
+            out.append(e)
+    edits = out
     return {'seed': 1, 'spec': {'handlers': handlers, 'settings': {'execution.default_backoff': 4.0, 'persistence.consistency_timeout': 1.0}},
             'cluster': {}, 'actions': [{'a': 'create', 'obj': 0, 'v': 0, 'dt': draw(dts)}] + edits, 'tail': draw(st.sampled_from([20.0, 40.0]))}
 
@@ -66,19 +75,33 @@ def run_case(sc):
         for r in sim.cluster.requests:
             if r['client'] == 'A1' and r.get('listed'):
                 deliveries += [r['t_done'] for (u, rv) in r['listed'] if u == uid]
-        essential = []
+        # essential changes as the operator got to see them: through the stream or through a (re-)listing, compared with the
+        # version it had seen before
         vers = [v for v in sim.cluster.history if v['rkey'] == KEX and v['uid'] == uid]
         by_rv = {v['rv']: v for v in vers}
+        seen = []        # (t, order, rv, via)
+        for r in sim.cluster.requests:
+            if r['client'] == 'A1' and r.get('listed'):
+                seen += [(r['t_done'], r['seq'], int(rv), 'list') for (u, rv) in r['listed'] if u == uid]
         for w in sim.cluster.all_watches:
             if w.rkey == KEX and w.session.client_id == 'A1':
                 for (t, typ, rv, u, tick) in w.delivered:
                     if u == uid:
                         deliveries.append(t)
-                        v = by_rv.get(int(rv)) if rv else None
-                        if v is not None and v['writer'] == 'env':
-                            prev = [p for p in vers if p['seq'] < v['seq']]
-                            if not prev or prev[-1]['body'].get('spec') != v['body'].get('spec'):
-                                essential.append(t)
+                        if rv:
+                            seen.append((t, tick, int(rv), 'stream'))
+        essential = []
+        relisted_change = False
+        prev = None
+        for (t, _, rv, via) in sorted(seen):
+            v = by_rv.get(rv)
+            if v is None:
+                continue
+            if prev is not None and prev['body'].get('spec') != v['body'].get('spec'):
+                essential.append(t)
+                if via == 'list':
+                    relisted_change = True
+            prev = v
         if not runs:
             res.label('no-runs')
             res.summary = {'runs': []}
@@ -153,6 +176,8 @@ def run_case(sc):
             due = last['t1'] + interval + (idle or 0.0) + EPS
             if due + 1.0 < horizon and not (idle and any(last['t1'] < ch for ch in deliveries)):
                 res.fail('C10/stopped-ticking', f'last run {last["t0"]}..{last["t1"]}, nothing until {horizon} (interval={interval}, idle={idle})')
+        if relisted_change:
+            res.label('essential-change-seen-through-relisting')
         if failures:
             res.label('with-failure')
         if postponed:
